@@ -23,9 +23,9 @@ Proof.
 Qed.
 Print Assumptions C20_message.
 
-(* the wiring of main in the source: rows to stdout, diagnostics to stderr, exit(-1) with a message *)
+(* the wiring of main in the source: rows to stdout, diagnostics to stderr, a message and exit status 255 (process::exit(-1)) *)
 Theorem C20_wiring : Gen.MainWiring.rows_stream = 1%N /\ Gen.MainWiring.diagnostics_stream = 2%N /\
-  Gen.MainWiring.error_message_to_stderr_and_exit_code = Some (-1).
+  Gen.MainWiring.error_message_to_stderr_and_exit_status = Some 255%Z.
 Proof. exact main_wiring_ok. Qed.
 Print Assumptions C20_wiring.
 
